@@ -526,6 +526,153 @@ static void run_case(void *ctx, mx_result_t *r)
     }
 }
 
+/* ---------------------------------------------------------------- DTLS anti-replay window scripts
+ * 48 one-record datagrams; script(g, r): deliver #0..#2, skip g datagrams, deliver #(3+g), replay it, replay #2,
+ * replay datagram r, then deliver all skipped ones in order and finally replay every datagram once more.
+ * Every delivery must be of a distinct submitted datagram (at most once each). */
+#define NWIN 48
+typedef struct { gctx_t *g; int gap, extra; } wcase_t;
+static unsigned char *wrec[NWIN];
+static int wlen[NWIN];
+static uint64_t whash[NWIN];
+
+static void run_window_case(void *ctx, mx_result_t *r)
+{
+    wcase_t *c = ctx;
+    gctx_t *g = c->g;
+    const pcfg_t *pc = &pcfgs[g->pi];
+    int recv = 1 - g->dir, i, d, jump = 3 + c->gap;
+    side_t *rs = &g->w.s[recv];
+    int cnt[NWIN];
+    const char *sym = NULL;
+    char cd[64];
+    snprintf(cd, sizeof(cd), "%s/%s", ver_name(pc->ver), pc->prot);
+    r->nontrivial = 1;
+#define FEED(k) do { if ((k) >= 0 && (k) < NWIN) { world_feed(&g->w, recv, wrec[k], wlen[k]); r->transitions++; } } while (0)
+    for (i = 0; i < 3; i++) FEED(i);
+    if (jump < NWIN)
+    {
+        FEED(jump);
+        FEED(jump);
+    }
+    FEED(2);
+    FEED(c->extra);
+    for (i = 3; i < NWIN; i++)
+    {
+        if (i != jump) FEED(i);
+    }
+    for (i = 0; i < NWIN; i++) FEED(i);
+#undef FEED
+    memset(cnt, 0, sizeof(cnt));
+    for (d = 0; d < rs->n_deliveries && d < 64 && !sym; d++)
+    {
+        for (i = 0; i < NWIN; i++)
+        {
+            if (rs->dlog[d].hash == whash[i] && rs->dlog[d].len == 24)
+            {
+                cnt[i]++;
+                break;
+            }
+        }
+        if (i == NWIN)
+        {
+            sym = "delivered-datagram-never-sent";
+        }
+    }
+    if (rs->n_deliveries > 64 && !sym)
+    {
+        sym = "datagram-not-sent-or-delivered-twice";
+    }
+    for (i = 0; i < NWIN && !sym; i++)
+    {
+        if (cnt[i] > 1)
+        {
+            sym = "datagram-not-sent-or-delivered-twice";
+        }
+    }
+    snprintf(r->outcome, sizeof(r->outcome), "dtls-window:gap%d:d%d:%s", c->gap, rs->n_deliveries > 60 ? 60 : rs->n_deliveries, sym ? sym : "ok");
+    r->trace_hash = world_trace_hash(&g->w);
+    if (sym)
+    {
+        r->violation = 1;
+        snprintf(r->key, sizeof(r->key), "%s|dir=%c|window-jump+replay|%s", cd, "cs"[g->dir], sym);
+        snprintf(r->what, sizeof(r->what), "%s sender=%s: 48 datagrams, deliver #0-2, jump over %d to #%d, replay it, replay #2 and #%d, then the rest and every datagram again => %s (%d deliveries)",
+            cd, g->dir ? "server" : "client", c->gap, jump, c->extra, sym, rs->n_deliveries);
+    }
+}
+
+static int setup_window_group(gctx_t *g)
+{
+    const pcfg_t *pc = &pcfgs[g->pi];
+    wcfg_t c;
+    int k;
+    memset(&c, 0, sizeof(c));
+    c.ver = pc->ver; c.kx = pc->kx; c.suite = pc->suite;
+    g->dtls = 1;
+    g->hdr = 13;
+    if (world_init(&g->w, &c) < 0 || world_handshake(&g->w) != 0)
+    {
+        return -1;
+    }
+    world_pump(&g->w, 50);
+    for (k = 0; k < NWIN; k++)
+    {
+        unsigned char msg[24];
+        rec_t r;
+        fill_msg(msg, 24, k + 3);
+        msg[0] = (unsigned char) k;
+        whash[k] = fnv1a(msg, 24, FNV0);
+        if (world_app_send(&g->w, g->dir, msg, 24) <= 0)
+        {
+            return -2;
+        }
+        r = world_wire_pop(&g->w, g->dir);
+        if (!r.p || g->w.wire[g->dir].n != 0)
+        {
+            return -3;
+        }
+        wrec[k] = r.p;
+        wlen[k] = r.len;
+    }
+    return 0;
+}
+
+static void run_window_group(int pi, int dir)
+{
+    static gctx_t g;
+    static const int gaps[] = { 0, 1, 2, 15, 29, 30, 31, 32, 33, 34, 40, 44 };
+    int gi, ex;
+    memset(&g, 0, sizeof(g));
+    g.pi = pi; g.dir = dir;
+    if (setup_window_group(&g) != 0)
+    {
+        mx_result_t r;
+        memset(&r, 0, sizeof(r));
+        r.violation = 2;
+        snprintf(r.key, sizeof(r.key), "window-setup-failed|p=%d|dir=%d", pi, dir);
+        snprintf(r.what, sizeof(r.what), "could not set up the DTLS window scenario for %s/%s", ver_name(pcfgs[pi].ver), pcfgs[pi].prot);
+        snprintf(r.desc, sizeof(r.desc), "p=%d;dir=%d;t=-1", pi, dir);
+        mx_record(&r);
+        return;
+    }
+    for (gi = 0; gi < (int) (sizeof(gaps) / sizeof(gaps[0])); gi++)
+    {
+        for (ex = 0; ex < NWIN; ex += (thorough ? 1 : 5))
+        {
+            char desc[200];
+            wcase_t c = { &g, gaps[gi], ex };
+            if (mx_deadline_hit())
+            {
+                return;
+            }
+            snprintf(desc, sizeof(desc), "p=%d;dir=%d;t=-1;e=%d (%s/%s sender=%s dtls-window gap=%d extra-replay=%d)", pi, dir, gaps[gi] * 100 + ex,
+                ver_name(pcfgs[pi].ver), pcfgs[pi].prot, dir ? "server" : "client", gaps[gi], ex);
+            mx_fork_case(desc, run_window_case, &c);
+        }
+    }
+    world_free(&g.w);
+}
+
 typedef struct { int pi, dir, ti; } grp_t;
 static grp_t groups[512];
 static long ngroups;
@@ -555,6 +702,11 @@ static void run_group(long gi, void *unused)
     int rc;
     (void) unused;
     memset(&g, 0, sizeof(g));
+    if (groups[gi].ti < 0)
+    {
+        run_window_group(groups[gi].pi, groups[gi].dir);
+        return;
+    }
     g.pi = groups[gi].pi; g.dir = groups[gi].dir; g.ti = groups[gi].ti;
     t = triple(g.pi, g.ti);
     g.lens[0] = t[0]; g.lens[1] = t[1]; g.lens[2] = t[2];
@@ -599,7 +751,8 @@ int main(int argc, char **argv)
     cfg.rule = "case = (version x record protection, sender role, message-length triple, one edit of the ciphertext record stream); "
                "edits: every bit of short records and of the first/last bytes of long ones (+ every 16th byte, rotating bit), truncation to each such length, "
                "extension by 1/16 bytes with and without length fix-up, every type value, version bytes, length rewrites, drop, duplicate, insert-replay at every position, "
-               "swap of every pair, reflection of a receiver-originated record at every position, block-boundary splices of every ordered pair; non-trivial = edit other than 'none'";
+               "swap of every pair, reflection of a receiver-originated record at every position, block-boundary splices of every ordered pair; "
+               "DTLS additionally: 48-datagram anti-replay window scripts (jump over g in {0,1,2,15,29..34,40,44} datagrams, replay the jumping datagram, an older one and a third, deliver the skipped ones, replay everything); non-trivial = edit other than 'none'";
     cfg.assumptions[0] = "entropy and clock pinned; fork() snapshot faithful";
     cfg.assumptions[1] = "TLS oracle: delivered bytes are a prefix of submitted bytes and lie wholly before the first modified byte (record-aligned); a complete modified record must leave the receiver dead with an alert emitted; CBC body bit flips must all yield bad_record_mac";
     cfg.assumptions[2] = "DTLS oracle: every delivered datagram equals a submitted one, at most once; silent discard is accepted";
@@ -618,6 +771,23 @@ int main(int argc, char **argv)
         {
             fprintf(stderr, "bad descriptor\n");
             return 2;
+        }
+        if (ti < 0)
+        {
+            wcase_t wc;
+            memset(&g, 0, sizeof(g));
+            g.pi = pi; g.dir = dir;
+            if (setup_window_group(&g) != 0)
+            {
+                fprintf(stderr, "setup failed\n");
+                return 2;
+            }
+            wc.g = &g; wc.gap = (int) (e / 100); wc.extra = (int) (e % 100);
+            memset(&r, 0, sizeof(r));
+            snprintf(r.desc, sizeof(r.desc), "%s", replay);
+            run_window_case(&wc, &r);
+            mx_replay_print(&r);
+            return 0;
         }
         memset(&g, 0, sizeof(g));
         g.pi = pi; g.dir = dir; g.ti = ti;
@@ -648,6 +818,10 @@ int main(int argc, char **argv)
                     continue; /* quick: server->client direction with the two short triples only */
                 }
                 groups[ngroups++] = (grp_t) { pi, dir, ti };
+            }
+            if (ver_is_dtls(pcfgs[pi].ver))
+            {
+                groups[ngroups++] = (grp_t) { pi, dir, -1 };
             }
         }
     }
